@@ -1047,11 +1047,16 @@ void StrPrinter::bvisit(const ZeroMatrix &x)
     str_ = "0";
 }
 
+PrecedenceEnum StrPrinter::get_precedence(const RCP<const Basic> &x)
+{
+    Precedence prec;
+    return prec.getPrecedence(x);
+}
+
 std::string StrPrinter::parenthesizeLT(const RCP<const Basic> &x,
                                        PrecedenceEnum precedenceEnum)
 {
-    Precedence prec;
-    if (prec.getPrecedence(x) < precedenceEnum) {
+    if (get_precedence(x) < precedenceEnum) {
         return parenthesize(apply(x));
     } else {
         return apply(x);
@@ -1061,8 +1066,7 @@ std::string StrPrinter::parenthesizeLT(const RCP<const Basic> &x,
 std::string StrPrinter::parenthesizeLE(const RCP<const Basic> &x,
                                        PrecedenceEnum precedenceEnum)
 {
-    Precedence prec;
-    if (prec.getPrecedence(x) <= precedenceEnum) {
+    if (get_precedence(x) <= precedenceEnum) {
         return parenthesize(apply(x));
     } else {
         return apply(x);
